@@ -4,10 +4,13 @@
 pub mod kx;
 pub mod stubs;
 pub mod ans;
+pub mod ans_io;
 pub mod range;
 pub mod backends;
 pub mod bits;
 pub mod models;
+pub mod chain;
+pub mod huffman;
 /// Pipeline self-test harnesses (not registered for any property).
 pub mod selftest {
     use crate::kx::*;
